@@ -16,6 +16,7 @@ def _linit(ctx, rep):
     rules_bits.packing(ctx, rep, want=('inverse',))
     rules_bits.storage(ctx, rep)
     rules_api.crypt(ctx, rep)
+    rules_birthday.birthday(ctx, rep)        # (the month index fits its 10 bits for every clock value)
 
 
 def c01(ctx, rep):
@@ -62,6 +63,7 @@ def c03(ctx, rep):
     rules_bits.mul2_and_horner(ctx, rep)
     rules_tables.registry_and_frozen(ctx, rep)
     rules_api.inject(ctx, rep)
+    rules_api.decoders(ctx, rep)
     return ('bit-provenance abstract interpretation of the packer and of polyseed_encode compared bit for bit with the published layout; '
             'check word = GF(2048) evaluation (C02 lemma); separators and composition flags from the constant tables')
 
@@ -90,12 +92,14 @@ def c06(ctx, rep):
     rules_api.create(ctx, rep)
     rules_api.decoders(ctx, rep)
     rules_api.crypt(ctx, rep)
+    rules_birthday.birthday(ctx, rep)
     return ('bit-provenance abstract interpretation of the storage codec: symbolic image of store; trace-partitioned load whose accept '
             'partition is the inverse of store with every input bit carried or pinned by a guard; exit summaries of polyseed_load for precedence and cleanup')
 
 
 def c09(ctx, rep):
     rules_cmp.nfkd_before_split(ctx, rep)
+    rules_cmp.lazy_normaliser_semantics(ctx, rep)
     rules_cmp.dispatch(ctx, rep)
     rules_api.decoders(ctx, rep)
     rules_api.detection(ctx, rep)
@@ -116,6 +120,7 @@ def c10(ctx, rep):
     rules_bits.storage_total(ctx, rep)
     rules_effects.frame(ctx, rep, cfgs=['NsS'])
     rules_effects.state_reads(ctx, rep)
+    rules_birthday.birthday(ctx, rep)
     return ('bitflow on the feature predicates and on polyseed_enable_features partitioned on the three mask bits; exit summaries of the four '
             'entry points; feature bits carried by packing, storage and crypt (bit identities)')
 
@@ -130,6 +135,7 @@ def c12(ctx, rep):
 
 def c13(ctx, rep):
     rules_effects.state_reads(ctx, rep, cfgs=ctx.configs('path'))
+    rules_effects.api_deps(ctx, rep, cfgs=ctx.configs('path'))
     rules_bounds.helper_contracts(ctx, rep)
     _linit(ctx, rep)
     rules_api.inject(ctx, rep)
@@ -180,6 +186,7 @@ def c20(ctx, rep):
 
 def c18(ctx, rep):
     rules_effects.visibility(ctx, rep)
+    rules_effects.api_deps(ctx, rep, cfgs=ctx.configs('path'))
     rules_effects.who_may_call(ctx, rep)
     rules_effects.frame(ctx, rep, cfgs=ctx.configs('path'))
     rules_api.inject(ctx, rep)
@@ -221,6 +228,7 @@ def c08(ctx, rep):
     rules_cmp.skip_normalised(ctx, rep)
     rules_cmp.counter_pairing(ctx, rep)
     rules_cmp.cursor_safety(ctx, rep)
+    rules_cmp.lazy_normaliser_semantics(ctx, rep)
     rules_tables.search_preconditions(ctx, rep)
     rules_tables.registry_and_frozen(ctx, rep)
     rep.assumptions += ['NOT decided: that each comparator body returns 0 exactly for "equal, or key is a >= 4-character prefix" on all strings '
@@ -230,6 +238,7 @@ def c08(ctx, rep):
 
 
 def c11(ctx, rep):
+    rules_effects.api_deps(ctx, rep)
     rules_birthday.birthday(ctx, rep)
     rules_bounds.helper_contracts(ctx, rep)
     rules_api.create(ctx, rep)
